@@ -212,7 +212,14 @@ LOOP:
 		reader = bytes.NewReader(msg.body)
 		d := sflow.NewSFDecoder(reader, opts.SFlowTypeFilter)
 		datagram, err := d.SFDecode()
-		if err != nil || (len(datagram.Counters) < 1 && len(datagram.Samples) < 1) {
+		if err != nil {
+			sFlowBuffer.Put(msg.body[:opts.SFlowUDPSize])
+			continue
+		}
+
+		atomic.AddUint64(&s.stats.DecodedCount, 1)
+
+		if len(datagram.Counters) < 1 && len(datagram.Samples) < 1 {
 			sFlowBuffer.Put(msg.body[:opts.SFlowUDPSize])
 			continue
 		}
@@ -223,8 +230,6 @@ LOOP:
 			logger.Println(err)
 			continue
 		}
-
-		atomic.AddUint64(&s.stats.DecodedCount, 1)
 
 		if opts.Verbose {
 			logger.Println(string(b))
